@@ -514,8 +514,9 @@ HXIstaccess(accrec_t *access_rec, int16 acc_mode)
 
 done:
     if (ret_value == FAIL) { /* Error condition cleanup */
-        if (access_rec != NULL)
-            HIrelease_accrec_node(access_rec);
+        /* the access record goes back to its owner: Hstartaccess releases it
+           (released here as well it was on the free list twice, and two later
+           access elements shared one record) */
         if (info != NULL) { /* free file name first */
             free(info->extern_file_name);
             free(info);
